@@ -42,6 +42,7 @@ def prog : List (Instr ℚ) :=
     .todense 0, .diagonal 0 (-1), .dotV 0 ⟨[r 1, z 0 1], true⟩, .rdotV ⟨[r 1, r 0, r 2], false⟩ 0,
     .contract 0 (some M32) none none, .contract 0 none (some ⟨[2], [0, 2]⟩) none,
     .contractMulti 0 [.coo ⟨3, 2, [0, 2, 2], [1, 0, 0], [r 1, r 2, r 3], false⟩, .none],
-    .addA 0 M32, .subA 0 M32, .rsubA M32 0, .un .copy 0, .un .pos 0, .subS 0 (r 0) ]
+    .addA 0 M32, .subA 0 M32, .rsubA M32 0, .un .copy 0, .un .pos 0, .subS 0 (r 0),
+    .setitem 0 (.sl none none none) (.sl none none none) true, .todense 0 ]   -- A[:, :] = 0 clears all dyads
 
 end PymotoVerif.Dyad.Ex
